@@ -34,3 +34,11 @@ package config
 //@   ghost at call logrus.Errorf: check source >= currentSource
 //@   ghost at call logrus.Entry).Error: check source >= currentSource
 //@   ghost at call (reflect.Value).Set: check source >= currentSource ; check !(metadata.Local && !srcIsLocal(source))
+
+//@ -- parameter parsers are assumed to be pure (they do not modify configuration state)
+//@ func (Param).Parse
+//@   trusted
+//@   assigns nothing
+//@ func (Param).GetMetadata
+//@   trusted
+//@   assigns nothing
